@@ -20,6 +20,9 @@ int g_c04_href[C04_NH];                      /* ghost reference count of the OWN
 unsigned g_c04_eq_calls;
 #define C04_H(i) (&g_c04_h[(i)])
 
+#ifdef C04_RIGHTLINKS
+static void c04_rl_on_compare(const KSI_DataHash *left, const KSI_DataHash *right, int verdict);
+#endif
 static _Bool c04_heq(const KSI_DataHash *a, const KSI_DataHash *b) {
 	return a != NULL && b != NULL && (a == b || g_c04_hcls[a - g_c04_h] == g_c04_hcls[b - g_c04_h]);
 }
@@ -27,6 +30,9 @@ int KSI_DataHash_equals(const KSI_DataHash *left, const KSI_DataHash *right) {
 	__CPROVER_assert(left == NULL || __CPROVER_same_object(left, g_c04_h), "hash compare: left is a hash object of this world");
 	__CPROVER_assert(right == NULL || __CPROVER_same_object(right, g_c04_h), "hash compare: right is a hash object of this world");
 	g_c04_eq_calls++;
+#ifdef C04_RIGHTLINKS
+	c04_rl_on_compare(left, right, c04_heq(left, right));
+#endif
 	return c04_heq(left, right);
 }
 void KSI_DataHash_free(KSI_DataHash *h) {
